@@ -39,6 +39,7 @@ type VC struct {
 	funcName string
 	counters map[string]int
 	extraAxioms []string
+	macroNames  map[string]string
 	decls []string
 	axioms []string
 	links map[string]*memLink
